@@ -88,6 +88,10 @@ struct Case {
     parts: Vec<Part>,
     target: Target,
     crlf: bool,
+    /// leading byte-order marks: one is ignored by every entry point, a second one is content
+    /// of the first document - for the stream entry points exactly as for `from_str`
+    #[serde(default)]
+    boms: u8,
 }
 
 impl Part {
@@ -166,11 +170,17 @@ impl<'a> std::io::Read for Slow<'a> {
 }
 
 fn check_typed<T: DeserializeOwned + std::fmt::Debug + PartialEq>(c: &Case) -> Outcome {
-    let text = stream_text(&c.parts, c.crlf);
+    // (a second BOM turns the first document into other text, whose kind the generator does not
+    // know: judged for one-document streams only, where the model is `from_str` itself)
+    if c.boms >= 2 && (c.parts.len() != 1 || c.parts[0].has_syntax_error()) {
+        return Outcome::Discard("second-bom-in-a-longer-stream");
+    }
+    let bom_prefix = "\u{feff}".repeat(c.boms as usize);
+    let text = format!("{bom_prefix}{}", stream_text(&c.parts, c.crlf));
     // ---- model: every part on its own
     let mut alone: Vec<Result<T, String>> = vec![];
-    for p in &c.parts {
-        let t = stream_text(std::slice::from_ref(p), c.crlf);
+    for (i, p) in c.parts.iter().enumerate() {
+        let t = format!("{}{}", if i == 0 { bom_prefix.as_str() } else { "" }, stream_text(std::slice::from_ref(p), c.crlf));
         alone.push(serde_saphyr::from_str::<T>(&t).map_err(|e| es(&e)));
     }
     // generator self-check: construction and observation must agree on syntax errors
@@ -178,11 +188,11 @@ fn check_typed<T: DeserializeOwned + std::fmt::Debug + PartialEq>(c: &Case) -> O
         if p.has_syntax_error() && r.is_ok() {
             return Outcome::Discard("selfcheck-syntax-error-part-accepted");
         }
-        if p.kind == Kind::AliasesEarlierAnchor && r.is_ok() {
+        if p.kind == Kind::AliasesEarlierAnchor && r.is_ok() && c.boms < 2 {
             return Outcome::Fail(format!("a document aliasing an anchor it does not define was accepted on its own: {:?}", p.text()));
         }
     }
-    let live: Vec<(usize, &Part)> = c.parts.iter().enumerate().filter(|(_, p)| !p.nullish()).collect();
+    let live: Vec<(usize, &Part)> = c.parts.iter().enumerate().filter(|(_, p)| !p.nullish() || c.boms >= 2).collect();
     let any_fail = live.iter().any(|(i, _)| alone[*i].is_err());
 
     // ---- batch
@@ -208,7 +218,11 @@ fn check_typed<T: DeserializeOwned + std::fmt::Debug + PartialEq>(c: &Case) -> O
     }
 
     // ---- iterator (reader, 1 byte and 7 bytes at a time)
-    for chunk in [1usize, 7, 1 << 16] {
+    // (with a second BOM the first document is a text of unknown kind - it may be a root scalar
+    // followed by a syntax error, which the iterator yields before it reaches the error: only
+    // the batch and single-document entry points are compared with `from_str` there)
+    let chunks: &[usize] = if c.boms >= 2 { &[] } else { &[1usize, 7, 1 << 16] };
+    for &chunk in chunks {
         let mut rd = Slow(text.as_bytes(), chunk);
         let mut items: Vec<Result<T, String>> = vec![];
         let limit = text.len() + 2;
@@ -377,6 +391,9 @@ impl Property for C11 {
         if c.crlf {
             out.push(Case { crlf: false, ..c.clone() });
         }
+        if c.boms > 0 {
+            out.push(Case { boms: c.boms - 1, ..c.clone() });
+        }
         out
     }
     /// libFuzzer input: target, line-break style, then 1-8 parts (kind, variant, end marker,
@@ -392,7 +409,8 @@ impl Property for C11 {
                 Part { kind: b.pick(&KINDS), variant: flags % 3, end_marker: flags & 16 != 0, trailing_comment: flags & 32 != 0 }
             })
             .collect();
-        let c = Case { parts, target, crlf };
+        let boms = [0u8, 0, 0, 1, 2][b.below(5)];
+        let c = Case { parts, target, crlf, boms };
         let nt = nontrivial(&c);
         Some(("fuzz-streams", c, nt))
     }
@@ -416,7 +434,7 @@ impl Property for C11 {
                     idx += 1;
                     total += 1;
                     if ctx.mine(idx) {
-                        let c = Case { parts: parts.clone(), target, crlf: code % 6 == 5 };
+                        let c = Case { parts: parts.clone(), target, crlf: code % 6 == 5, boms: [0u8, 0, 1, 0, 2, 0, 0][(code % 7) as usize] };
                         let nt = nontrivial(&c);
                         if target == Target::Untyped {
                             for p in &c.parts {
@@ -434,8 +452,8 @@ impl Property for C11 {
         // bias towards valid kinds so that long streams survive
         let good_part = (prop::sample::select(vec![Kind::Mapping, Kind::NestedValid, Kind::Empty, Kind::ExplicitNull, Kind::CommentOnly, Kind::DefinesAnchor, Kind::TypeErrorEarly, Kind::TypeErrorLate, Kind::Sequence, Kind::Scalar, Kind::EnumName, Kind::EnumName]), 0u8..3, any::<bool>(), any::<bool>())
             .prop_map(|(kind, variant, e, t)| Part { kind, variant, end_marker: e, trailing_comment: t });
-        let strat = (prop::collection::vec(prop_oneof![3 => good_part, 1 => part], 1..9), prop::sample::select(vec![Target::Untyped, Target::IntMap, Target::Cmd, Target::Str]), any::<bool>())
-            .prop_map(|(parts, target, crlf)| Case { parts, target, crlf });
+        let strat = (prop::collection::vec(prop_oneof![3 => good_part, 1 => part], 1..9), prop::sample::select(vec![Target::Untyped, Target::IntMap, Target::Cmd, Target::Str]), any::<bool>(), prop::sample::select(vec![0u8, 0, 0, 1, 2]))
+            .prop_map(|(parts, target, crlf, boms)| Case { parts, target, crlf, boms });
         ctx.run_strategy("random-long", 1, ctx.tier.pick(30_000, 400_000), &strat, nontrivial);
     }
 }
